@@ -142,7 +142,7 @@ def run(rep, tier, seed, tr_errors):
                     "tie 2 = correspondence of BOTH with the observed element order on every run; theorem: the work list computes the recursive order",
                     "the clause 'every element exactly once' is decided per case on observed data (sorted id lists), not as a theorem about the traversal"]
     thm_ok, names, out = lib.check_props_file(rep, PROPS_FILE, expect=["C16_typed_counts", "C16_running_ids", "C16_names_injective", "C16_builtin_symbols_have_no_underscore", "C16_names_are_assigned", "C16_traversal_no_duplicates", "C16_traversal_exactly_the_elements", "C16_worklist_returns_the_recursive_order", "C16_worklist_terminates_with_the_recursive_order", "C16_worklist_semantics_total_and_deterministic"])
-    n = 400 if tier == "quick" else 6000
+    n = 400 if tier == "quick" else 2500      # 6000 cases with both traversal models took more than 50 minutes under load
     cases, direct = [], []
     from pyimpspec import Circuit
     for i in range(n):
